@@ -390,6 +390,49 @@ def section_spectrum_implicit():
             fail("spectrum_implicit", "explicit truncation error does not scale like lambda^(N+1)", order=N, ratio=float(e1 / e2))
 
 
+def section_inputs_untouched():
+    """C10: the caller's input containers and values are never modified."""
+    global cases
+    rng = np.random.default_rng(91)
+    n = 4
+    E = np.array([0.0, 1.0, 3.0, 4.5])
+    M = rng.normal(size=(n, n))
+    M = M + M.T
+    x = sympy.Symbol("x", real=True)
+    makers = {
+        "dense-diagonal": lambda: np.diag(E), "dense-full": lambda: np.diag(E) + 0.0, "csr": lambda: sparse.csr_array(np.diag(E)),
+        "coo": lambda: sparse.coo_array(np.diag(E)), "dia": lambda: sparse.dia_array(np.diag(E)),
+    }
+    for hname, mk in makers.items():
+        for container in ("dict-tuples", "list", "dict-monomials"):
+            cases += 1
+            h0, h1 = mk(), (M.copy() if "dense" in hname else sparse.csr_array(M))
+            if container == "dict-tuples":
+                ham = {(0,): h0, (1,): h1}
+            elif container == "list":
+                ham = [h0, h1]
+            else:
+                ham = {sympy.Integer(1): h0, x: h1}
+            items = list(ham.items()) if isinstance(ham, dict) else list(enumerate(ham))
+            snap = [(k, v, type(v), (v.toarray() if sparse.issparse(v) else np.array(v)).copy()) for k, v in items]
+            try:
+                Ht, U, Ud = block_diagonalize(ham, subspace_indices=[0, 0, 1, 1])
+                for o in range(4):
+                    Ht[0, 0, o], U[0, 1, o], Ud[1, 0, o]
+            except Exception as e:
+                fail("inputs_untouched", "block_diagonalize raised", value=hname, container=container, error=repr(e)[:200])
+                continue
+            now = list(ham.items()) if isinstance(ham, dict) else list(enumerate(ham))
+            if len(now) != len(snap):
+                fail("inputs_untouched", "the caller's container changed its length", value=hname, container=container)
+                continue
+            for (k, v, tp, arr), (k2, v2) in zip(snap, now):
+                if k2 != k or v2 is not v or type(v2) is not tp:
+                    fail("inputs_untouched", "an entry of the caller's container was replaced", value=hname, container=container, key=k, before=tp.__name__, after=type(v2).__name__)
+                elif not np.array_equal((v2.toarray() if sparse.issparse(v2) else np.array(v2)), arr):
+                    fail("inputs_untouched", "a value passed by the caller was modified in place", value=hname, container=container, key=k)
+
+
 def section_solvers():
     """C16: each built-in solver returns a solution of its own equation."""
     global cases
